@@ -589,6 +589,11 @@ func Gen(seed int64, index int, o GenOpts) *Case {
 				zeroSegAt = 2 + pick(nSegs+1)
 			}
 			twin := false
+			skipRAAt, skipRATwice, skippedTwice := 0, false, false
+			if (o.Profile == "general" || o.Profile == "long") && (uint64(seed)*3+uint64(index)*13)%3 == 1 {
+				skipRAAt = 2 + int((uint64(seed)+uint64(index)*7)%5)
+				skipRATwice = (uint64(seed)+uint64(index))%4 == 0
+			}
 			for n := 0; ; n++ {
 				sec := float64(dts) / rate
 				if sec-p.startSec > totalSec {
@@ -613,6 +618,17 @@ func Gen(seed int64, index int, o GenOpts) *Case {
 				if twin {
 					ra = true
 					changeOnRA[gopIdx+1] = true
+				}
+				// one key frame of the regular grid is missing: that segment lasts two or three GOPs and
+				// EXT-X-TARGETDURATION may have to grow while earlier segments (and the initial
+				// Low-Latency gaps) are still listed
+				if skipRAAt > 0 && ra && pos > 0 && !sp.BFrames && gopGrowth == 0 && (gopIdx == skipRAAt || (skipRATwice && gopIdx == skipRAAt+1 && !skippedTwice)) && !changeOnRA[gopIdx+1] && !twin {
+					if gopIdx == skipRAAt+1 {
+						skippedTwice = true
+					}
+					ra = false
+					gopIdx++ // keeps the numbering of the planned parameter changes
+					c.Features["missing-keyframe"] = true
 				}
 				vo := VideoOpts{RA: ra, ParamIdx: -1, Size: 10 + pick(120)}
 				if ra {
